@@ -621,9 +621,20 @@ class Collection(object):
             return self._update(spec, document, upsert, manipulate, multi,
                                 check_keys, **kwargs)
 
-    def _update(self, spec, document, upsert=False, manipulate=False,
-                multi=False, check_keys=False, hint=None, session=None,
-                collation=None, let=None, array_filters=None, **kwargs):
+    def _update(self, *args, **kwargs):
+        # A single-document update is atomic: whatever makes it fail, the document it was
+        # working on is put back as it was before the call.
+        rollback = []
+        try:
+            return self._apply_update(rollback, *args, **kwargs)
+        except Exception:
+            for key, snapshot in rollback:
+                self._store[key] = snapshot
+            raise
+
+    def _apply_update(self, rollback, spec, document, upsert=False, manipulate=False,
+                      multi=False, check_keys=False, hint=None, session=None,
+                      collation=None, let=None, array_filters=None, **kwargs):
         if session:
             raise_not_implemented('session', 'Mongomock does not handle sessions yet')
         if hint:
@@ -683,6 +694,10 @@ class Collection(object):
             else:
                 original_document_snapshot = copy.deepcopy(existing_document)
                 updated_existing = True
+                snapshot_key = original_document_snapshot['_id']
+                if isinstance(snapshot_key, dict):
+                    snapshot_key = helpers.hashdict(snapshot_key)
+                rollback[:] = [(snapshot_key, original_document_snapshot)]
             num_matched += 1
             first = True
             subdocument = None
@@ -920,22 +935,16 @@ class Collection(object):
 
                 # Make sure the ID was not change.
                 if original_document_snapshot.get('_id') != existing_document.get('_id'):
-                    # Rollback.
-                    self._store[original_document_snapshot['_id']] = original_document_snapshot
                     raise WriteError(
                         "After applying the update, the (immutable) field '_id' was found to have "
                         'been altered to _id: {}'.format(existing_document.get('_id')))
 
                 # Make sure it still respect the unique indexes and, if not, to
                 # revert modifications
-                try:
-                    self._ensure_uniques(existing_document)
-                    num_updated += 1
-                except DuplicateKeyError:
-                    # Rollback.
-                    self._store[original_document_snapshot['_id']] = original_document_snapshot
-                    raise
+                self._ensure_uniques(existing_document)
+                num_updated += 1
 
+            del rollback[:]
             if not multi:
                 break
 
